@@ -3,7 +3,7 @@ CONSTANTS
   MaxR = 2
   Langs = {2, 3}
   Kinds = {"cheap", "costly", "picky", "fail"}
-  ScriptLocs = {"witness", "reference", "missing"}
+  ScriptLocs = {"witness", "reference", "inputref", "missing"}
   DatumKinds = {"inline", "witness", "missing", "none"}
 INVARIANTS Accounting FailsIff Emit
 CHECK_DEADLOCK FALSE
